@@ -62,7 +62,8 @@ class MetricActionContext(ActionContext):
         if metric.expression:
             try:
                 metric_value = float(self.trigger_context.evaluate_expression(metric.expression))
-            except Exception:
+            except BaseException:
+                # float() and str() below run code of the value (__float__, __str__), which can raise anything
                 deep.logging.exception("Cannot process metric expression %s", metric.expression)
 
         labels = {}
@@ -72,7 +73,7 @@ class MetricActionContext(ActionContext):
                 if label.expression:
                     try:
                         value = str(self.trigger_context.evaluate_expression(label.expression))
-                    except Exception:
+                    except BaseException:
                         deep.logging.exception("Cannot process metric label expression %s: %s", key, label.expression)
                         value = 'expression failed'
                 else:
